@@ -281,6 +281,26 @@ fn pair_sweep(f: &Field, l: usize, sink: Sink<'_>) {
     }
 }
 
+/// A few long fields (two and four 64-bit words past a 128-byte stride) with an offender near the
+/// start, the middle and the end.
+fn long_sweep(f: &Field, sink: Sink<'_>) {
+    let mut buf = Vec::new();
+    for l in [70usize, 131, 257] {
+        buf.clear();
+        buf.extend_from_slice(f.pre);
+        buf.extend(std::iter::repeat(f.fill).take(l));
+        buf.extend_from_slice(f.post);
+        sink(f.entry, f.cfg, 2, &buf);
+        for pos in [0usize, 1, 7, l / 2, l - 9, l - 8, l - 2, l - 1] {
+            for v in [0x00u8, 0x20, 0x7f, 0xff] {
+                buf[f.pre.len() + pos] = v;
+                sink(f.entry, f.cfg, 2, &buf);
+            }
+            buf[f.pre.len() + pos] = f.fill;
+        }
+    }
+}
+
 pub fn xpart(p: usize, thorough: bool, sink: Sink<'_>) {
     let lens: &[usize] = if thorough { &[0, 1, 2, 3, 4, 5, 6, 7, 8, 9, 10, 11, 12, 13, 15, 16, 17, 19] } else { &[0, 1, 3, 4, 5, 7, 8, 9, 12] };
     let vals: &[u8] = if thorough { &MINI_VALS } else { &XV };
@@ -290,6 +310,7 @@ pub fn xpart(p: usize, thorough: bool, sink: Sink<'_>) {
             field_sweep(&FIELDS[0], lens, vals, sink);
             field_sweep(&FIELDS[1], lens, vals, sink);
             pair_sweep(&FIELDS[1], 9, sink);
+            long_sweep(&FIELDS[1], sink);
             // the target ends right before / after a word boundary, delimiter variants
             for l in 1..=9usize {
                 for tail in [&b" HTTP/1.1\r\n\r\n"[..], b"! HTTP/1.1\r\n\r\n", b"!\x00", b"~ HTTP/1.0\n\n"] {
@@ -310,6 +331,8 @@ pub fn xpart(p: usize, thorough: bool, sink: Sink<'_>) {
             }
             pair_sweep(&FIELDS[4], 9, sink);
             pair_sweep(&FIELDS[2], 9, sink);
+            long_sweep(&FIELDS[4], sink);
+            long_sweep(&FIELDS[2], sink);
         }
         3 => {
             for k in [1usize, 5] {
